@@ -119,6 +119,19 @@ CLAIMED.update({
     },
 })
 
+CLAIMED.update({
+    "C05": {
+        "text": "Structural necessary conditions of the BAM record codec: no non-constant narrowing `as` cast in the encoder/writer closure "
+                "that the interval domain or a confirmed table does not cover, lengths/counts through try_from, CIGAR-overflow pairing "
+                "(CG tag on encode, resolve on decode, lazy view) by must-pass-through, confirmed writers of the raw record buffer with "
+                "validation on both read paths, dec∘enc = id exhaustively for the kind/type/subtype tables, reg2bin geometry constants. "
+                "Whole-record equality and value boundaries are not decided.",
+        "note": "interval reasoning is dominance-based; three casts are tabled with reasons",
+        "technique": "static analysis: interval domain over MIR for casts, must-pass-through, who-may-write, HIR match-table agreement, evaluated constants",
+        "design_ref": "§5 C05",
+    },
+})
+
 NOT_APPLICABLE = {
     "C08": "every clause is numeric (rANS/arith/fqzcomp state arithmetic, ITF8/LTF8 bit arithmetic): correct and off-by-one "
            "implementations have the same code shape, so no sound static rule short of a solver/proof decides it; the "
